@@ -1411,4 +1411,65 @@ theorem serveOne_flags (blk rblk : Nat) (opt : Bool) (q : Request) (p : Plan) (j
     all_goals simp
 
 
+
+
+theorem clampXfer_bounds (w : Option Nat) (limit : Nat) (h : 0 < limit) : 1 ≤ clampXfer w limit ∧ clampXfer w limit ≤ limit := by
+  unfold clampXfer
+  cases w with
+  | none => simp; omega
+  | some w => simp only []; omega
+
+theorem sockWriteLoop_all : ∀ (f : Nat) (sched : List Nat) (data out : Bytes) (s : Nat), data.length ≤ f → data ≠ [] →
+    sockWriteLoop f sched data (out, s) = (out ++ data, s + data.length) := by
+  intro f
+  induction f with
+  | zero => intro sched data out s h hne; exact absurd (List.eq_nil_of_length_eq_zero (by omega)) hne
+  | succ f ih =>
+    intro sched data out s h hne
+    have hl : 0 < data.length := List.length_pos_iff.mpr hne
+    have he : data.isEmpty = false := by cases data <;> simp_all
+    obtain ⟨h1, h2⟩ := clampXfer_bounds sched.head? data.length hl
+    unfold sockWriteLoop
+    simp only [he, Bool.false_eq_true, if_false]
+    by_cases hd : (data.drop (clampXfer sched.head? data.length)).isEmpty = true
+    · simp only [hd, if_true]
+      have hdl : (data.drop (clampXfer sched.head? data.length)).length = 0 := by
+        rw [List.isEmpty_iff.mp hd]; rfl
+      rw [List.length_drop] at hdl
+      have hn : clampXfer sched.head? data.length = data.length := by omega
+      rw [hn, List.take_length]
+    · have hd' : (data.drop (clampXfer sched.head? data.length)).isEmpty = false := by simpa using hd
+      simp only [hd', Bool.false_eq_true, if_false]
+      have hne' : data.drop (clampXfer sched.head? data.length) ≠ [] := by
+        intro h0; rw [h0] at hd'; simp at hd'
+      rw [ih sched.tail _ _ _ (by rw [List.length_drop]; omega) hne']
+      rw [List.append_assoc, List.take_append_drop, List.length_drop]
+      congr 1
+      omega
+
+theorem sockReadLoop_all : ∀ (f : Nat) (sched : List Nat) (inc out : Bytes) (size : Nat), size ≤ f → 0 < size → size ≤ inc.length →
+    sockReadLoop f sched inc size out = (out ++ inc.take size, false) := by
+  intro f
+  induction f with
+  | zero => intro sched inc out size h1 h2; omega
+  | succ f ih =>
+    intro sched inc out size h1 h2 h3
+    have he : inc.isEmpty = false := by cases inc <;> simp_all
+    have hmin : min size inc.length = size := by omega
+    obtain ⟨c1, c2⟩ := clampXfer_bounds sched.head? (min size inc.length) (by omega)
+    unfold sockReadLoop
+    simp only [he, Bool.false_eq_true, if_false]
+    rw [hmin] at c1 c2 ⊢
+    by_cases hz : size - clampXfer sched.head? size = 0
+    · simp only [hz, if_true]
+      have : clampXfer sched.head? size = size := by omega
+      rw [this]
+    · simp only [hz, if_false]
+      rw [ih sched.tail _ _ _ (by omega) (by omega) (by rw [List.length_drop]; omega)]
+      rw [List.append_assoc]
+      congr 2
+      have : size = clampXfer sched.head? size + (size - clampXfer sched.head? size) := by omega
+      conv => rhs; rw [this, List.take_add]
+
+
 end AslProofs.HttpFrame
